@@ -715,6 +715,12 @@ impl Xot {
     /// # Ok::<(), xot::Error>(())
     /// ```
     pub fn deduplicate_namespaces(&mut self, node: Node) {
+        // removing a declaration can make another one redundant that was
+        // needed before: repeat until nothing is removed any more
+        while self.deduplicate_namespaces_pass(node) {}
+    }
+
+    fn deduplicate_namespaces_pass(&mut self, node: Node) -> bool {
         let mut fullname_serializer = FullnameSerializer::new(self, vec![]);
         let mut fixup_nodes = Vec::new();
         let mut deduplicate_tracker = DeduplicateTracker::new();
@@ -796,12 +802,14 @@ impl Xot {
                 fixup_prefixes.push((node, prefixes_to_remove.collect::<Vec<_>>()));
             }
         }
+        let mut removed = false;
         for (node, prefix) in fixup_prefixes {
             let mut namespaces = self.namespaces_mut(node);
             for prefix in prefix {
-                namespaces.remove(prefix);
+                removed |= namespaces.remove(prefix).is_some();
             }
         }
+        removed
     }
 
     pub(crate) fn prefixes_in_scope(&self, node: Node) -> Prefixes {
